@@ -282,7 +282,21 @@ pub fn check(tier: Tier) -> i32 {
     });
     let known = known_classifiers("C06");
     let known_set: std::collections::BTreeSet<String> = known.keys().cloned().collect();
-    let (counters, viols, wall) = parallel_runs("C06", n, |i, seed, c| run_one(tier, i, seed, c, &known_set));
+    let (mut counters, mut viols, mut wall) = parallel_runs("C06", n, |i, seed, c| run_one(tier, i, seed, c, &known_set));
+    // second leg: long single-client histories (2D and 3D, natural errors and F1/F2 faults at
+    // seeded positions) with the same oracle after every failing call: reaches states that the
+    // short prefixes of the enumeration leg do not
+    let (hc, hv, hw, _) = crate::props::hprops::collect("C06", tier);
+    let hist_err = hc.get("tx_err");
+    counters.add("history_leg_histories", hc.get("histories"));
+    counters.add("history_leg_failing_calls_checked", hist_err);
+    counters.add("history_leg_steps", hc.get("steps"));
+    counters.add("runs", hc.get("histories"));
+    for h in hc.distinct.get("states").into_iter().flatten() {
+        counters.seen("error_cases", *h ^ 0x5a5a);
+    }
+    viols.extend(hv);
+    wall += hw;
     let rep = Report {
         property: "C06".into(),
         tier,
@@ -328,6 +342,9 @@ fn reproduces(p: &Payload) -> Option<String> {
 }
 
 fn minimise(mut v: Violation) -> Violation {
+    if v.payload.get("history").is_some() {
+        return crate::props::hprops::minimise(v);
+    }
     let Ok(mut p) = serde_json::from_value::<Payload>(v.payload.clone()) else { return v };
     // drop prefix steps while the violation persists
     let mut k = 0;
@@ -355,10 +372,16 @@ fn minimise(mut v: Violation) -> Violation {
 }
 
 pub fn replay_reproduces(v: &Violation) -> bool {
+    if v.payload.get("history").is_some() {
+        return crate::props::hprops::replay_reproduces(v);
+    }
     serde_json::from_value::<Payload>(v.payload.clone()).ok().and_then(|p| reproduces(&p)).is_some()
 }
 
 pub fn replay(v: &Violation) -> i32 {
+    if v.payload.get("history").is_some() {
+        return crate::props::hprops::replay(v);
+    }
     let Ok(p) = serde_json::from_value::<Payload>(v.payload.clone()) else {
         eprintln!("HARNESS-ERROR bad C06 payload");
         return 2;
